@@ -2,11 +2,10 @@
 Case: {"mode", "t": {"hh","mi","ss" (-1 = unspecified), "dom","doy","dow","woy" (0 = unspecified), "zu": bool, "zh","zm"},
        "p": time point record, "order": "t+p"|"p+t"}"""
 import random
-import signal
 
 from harness import gen
 from harness import refcal as R
-from harness.common import MEANING, TimePoint, mk_tp, outcome, proj_tp, set_mode, tp_rec
+from harness.common import MEANING, TimePoint, cpu_watchdog, mk_tp, outcome, proj_tp, set_mode, tp_rec
 
 PROP = "C20"
 
@@ -39,16 +38,12 @@ def run_case(case, rec, cid):
     if st == "err":
         return False          # the library refuses this truncated point in this mode (e.g. week 53 where none exists)
     p = mk_tp(case["p"])
-    signal.signal(signal.SIGALRM, _alarm)
-    signal.alarm(5)
-    try:
+    with cpu_watchdog(5, OpTimeout):
         def f():
             q = (t + p) if case["order"] == "t+p" else (p + t)
             q2 = t + q
             return dict(q=proj_tp(q), q2=proj_tp(q2))
         st, v = outcome(f)
-    finally:
-        signal.alarm(0)
     if st == "ok":
         rec.ev("TruncAdd", cid, t=case["t"], p=proj_tp(p), order=case["order"], ok=True, cls="", **v)
     else:
